@@ -162,7 +162,12 @@ func (f *Func) AssignIDs() error {
 			// assigned earlier (e.g. by a previous print, before the function was
 			// edited) is overwritten. Local IDs given explicitly in LLVM IR
 			// assembly are validated by the parser (asm).
-			n.SetID(id)
+			//
+			// The ID is only written when it changes, so that concurrent printers
+			// of an already numbered module do not write to memory read by others.
+			if n.ID() != id {
+				n.SetID(id)
+			}
 			id++
 		}
 		return nil
